@@ -64,12 +64,16 @@ def make_runner(base, nvars, idim, const_is_dim, t):
 
 
 def grow_all(env, crop_name, reload_):
+    """every batch, by number: as a cluster job does it (the module-level grow with a crop loaded by name), or - by the
+    process that holds the crop - through the Crop.grow method, one id and then the remaining ids at once"""
     crop = cp.Crop(name=crop_name, parent_dir=env.parent)
-    for i in range(1, crop.num_batches + 1):
-        if reload_:
+    if reload_:
+        for i in range(1, crop.num_batches + 1):
             cp.grow(i, crop=cp.Crop(name=crop_name, parent_dir=env.parent), verbosity=0)
-        else:
-            cp.grow(i, crop=crop, verbosity=0)
+    else:
+        crop.grow(1, verbosity=0)
+        if crop.num_batches > 1:
+            crop.grow(tuple(range(2, crop.num_batches + 1)), verbosity=0)
 
 
 # ------------------------------------------------------------------ Runner
